@@ -1273,9 +1273,6 @@ impl<'c, 'a> Exec<'c, 'a> {
                 Some(if m.is_some() { "some" } else { "none" })
             }
             Op::GetMutRange { r, sched, end } => {
-                if !d.can_iterate {
-                    return Some("unsupported");
-                }
                 let spec = r.resolve(len);
                 if r.mode == 1 {
                     self.ctx.probe("range-inverted");
